@@ -125,6 +125,22 @@ def _impl(tier, seed, search):
         observe('display', f'trprint2(T{k_})', lambda T_: b.trprint2(T_, file=None), [Tn.copy()], sig='mutates:trprint2'); observe('display', f'trprint2(T{k_},rad)', lambda T_: b.trprint2(T_, file=None, unit='rad'), [Tn.copy()], sig='mutates:trprint2')
         Xn = SE2(Tn.copy(), check=False)
         observe('display', f'SE2.printline({k_})', lambda X_: X_.printline(file=None), [Xn], sig='mutates:SE2.printline'); observe('display', f'SE2.__str__({k_})', lambda X_: str(X_), [Xn], sig='mutates:SE2.__str__')
+    # the same call many times in a row gives the same result every time (no counters, caches or periodic clean-ups): products, conversions,
+    # geometric queries on fixed operands, 40 repetitions each
+    from spatialmath.geom3d import Plucker as _Pl
+    qa1, qa2 = UnitQuaternion.RPY([-0.4, -0.4, -1.1]), UnitQuaternion.RPY([0.3, 0.7, -0.2]); Ta1, Ta2 = SE3.RPY([0.1, 0.2, 0.3]) * SE3(1, 2, 3), SE3.Rx(0.7) * SE3(-1, 0, 2)
+    lpa, lpb = _Pl.PointDir([4.0, 5.0, 6.0], [1.0, 2.0, 3.0]), _Pl.PointDir([5.0, 5.0, 6.0], [2.0, 4.0, 6.0]); lsk = _Pl.PQ([0.0, 1.0, 2.0], [3.0, -1.0, 0.5])
+    for nm_, f_, args_ in (('UnitQuaternion * UnitQuaternion (x40)', lambda a_, b_: (a_ * b_).vec, [qa1, qa2]), ('SE3 * SE3 (x40)', lambda a_, b_: (a_ * b_).A, [Ta1, Ta2]), ('UnitQuaternion(SO3) (x40)', lambda a_: UnitQuaternion(a_).vec, [SO3(Ta1.R)]),
+                           ('UnitQuaternion.inv (x40)', lambda a_: a_.inv().vec, [qa1]), ('Plucker.distance(parallel) (x40)', lambda a_, b_: a_.distance(b_), [lpa, lpb]), ('Plucker.distance(skew) (x40)', lambda a_, b_: a_.distance(b_), [lpa, lsk]),
+                           ('Plucker.closest (x40)', lambda a_: a_.closest([1.0, 2.0, 3.0]).p, [lpb]), ('Plucker.commonperp (x40)', lambda a_, b_: a_.commonperp(b_).vec, [lpa, lsk]), ('SE3.interp (x40)', lambda a_, b_: b_.interp(0.3, start=a_).A, [Ta1, Ta2]),
+                           ('Twist3(SE3).exp (x40)', lambda a_: Twist3(a_).exp(0.5).A, [Ta1])):
+        before_ = [snap(a_) for a_ in args_]; L.count('repeat-40', key=nm_); L.sample('repeat-40', dict(callable=nm_))
+        try: outs_ = [np.array(f_(*args_), dtype=float).copy() for _ in range(40)]
+        except Exception: continue
+        if any(not np.array_equal(o_, outs_[0]) for o_ in outs_[1:]):
+            kbad_ = next(k_ for k_, o_ in enumerate(outs_) if not np.array_equal(o_, outs_[0]))
+            L.fail(f'nondeterministic:{nm_.split(" (")[0]}', f'{nm_}: repetition {kbad_} returned a different result from the first call on the same operands', dict(callable=nm_, repetition=kbad_), observed=outs_[kbad_].tolist(), required=outs_[0].tolist())
+        if [snap(a_) for a_ in args_] != before_: L.fail(f'mutates:{nm_.split(" (")[0]}', f'{nm_} modified an operand', dict(callable=nm_))
     # text forms do not depend on what has been displayed before (no global state such as print options is left behind)
     Xs1 = SE3(0.0002, 0, 3); Xm1 = SE3.Rx([0.1, 0.2, 0.3]); Q1 = Quaternion([0.0002, 1, 2, 3]); R1s = SO3.Rz(0.00012)
     def texts(): return (repr(Xs1), str(Xs1), repr(Q1), str(Q1), repr(R1s), np.array2string(np.array([0.00012, 3.0])))
